@@ -76,6 +76,12 @@ fn main() {
             };
             std::process::exit(code);
         }
+        "shipped-costs" => {
+            for (name, _, sys) in props::mc_common::shipped_corpus(400_000, 6, true).iter() {
+                out.say(&format!("{} {} states={} bits={} nodes={}", props::mc_common::mc_cost(sys), name, sys.states.len(), sys.state_bits(), sys.nodes.len()));
+            }
+            std::process::exit(0);
+        }
         "selftest" => {
             std::process::exit(selftest::run_all(&out));
         }
